@@ -3,7 +3,7 @@
 # confirms in a scratch worktree of /repo (outside /repo and /verif): (a) HEAD + demo passes, (b) HEAD + patch + demo
 # fails in a non-flaky test, (c) HEAD + patch: the existing suite passes. Prints a one-line verdict.
 set -u
-D="$1"
+D="$(readlink -f "$1")"
 WT=/tmp/vfy-seed
 export CARGO_TARGET_DIR=/tmp/vfy-seed-target CARGO_NET_OFFLINE=true
 [ -d $WT ] || git -C /repo worktree add -q --detach $WT HEAD
